@@ -32,15 +32,32 @@ theorem foldlM_single {α β : Type} (f : β → α → E β) (b : β) (x : α) 
   rw [List.foldlM_cons]
   cases f b x <;> rfl
 
+theorem dedup_eq_of_nodup : ∀ l : List Name, l.Nodup → dedup l = l
+  | [], _ => rfl
+  | x :: xs, h => by
+    rw [List.nodup_cons] at h
+    rw [dedup, dedup_eq_of_nodup xs h.2]
+    congr 1
+    rw [List.filter_eq_self]
+    intro y hy
+    have : y ≠ x := fun e => h.1 (e ▸ hy)
+    simp [this]
+
+/-- the writer never repeats an operand, so the parity normalisation of the reader (K30) leaves its lists alone -/
+theorem parityFanin_nodup (t : String) (F : List Name) (h : F.Nodup) : parityFanin t F = F := by
+  unfold parityFanin
+  rw [dedup_eq_of_nodup F h]
+  simp
+
 theorem doInstance_prim {bbs : List BBox} {ord' : Ord} {t : String} (ht : t ∈ gateTypes) (st : TState) (g n : Name)
-    (F : List Name) {c' : Circuit} (h : st.c.add (rdArgs n t F) = (c', .ok, n)) :
+    (F : List Name) (hF : F.Nodup) {c' : Circuit} (h : st.c.add (rdArgs n t F) = (c', .ok, n)) :
     doInstance bbs ord' t st (g, Conns.positional ((n :: F).map Expr.id)) = .ok { st with c := c' } := by
   unfold doInstance
   rw [if_pos (primitive_of_gate ht)]
   show evalExprs st ((n :: F).map Expr.id) >>= _ = _
   rw [evalExprs_ids]
-  show addNode st n t F false >>= _ = _
-  rw [addNode_ok h]
+  show addNode st n t (parityFanin t F) false >>= _ = _
+  rw [parityFanin_nodup t F hF, addNode_ok h]
   rfl
 
 theorem doAssign_const (st : TState) (hg : st.gateExprs = []) (n t : String) (hn : ¬ isTie n) {c' : Circuit}
@@ -131,7 +148,7 @@ theorem gstep {c : Circuit} (hc : Wr c) {bbs : List BBox} {ord' : Ord} {st : TSt
       a1 a2 a3 (fun h1 => absurd h1 f4)
     refine ⟨{ st with c := c' }, ?_, hr, hg⟩
     show [(g, Conns.positional ((n :: F).map Expr.id))].foldlM (doInstance bbs ord' t) st >>= _ = _
-    rw [foldlM_single, doInstance_prim htg st g n F e]
+    rw [foldlM_single, doInstance_prim htg st g n F hFnd e]
     rfl
   · obtain ⟨f1, f2, f3⟩ := const_facts htc
     have hnp : ¬ PinTy c n := by
